@@ -51,7 +51,7 @@ def cb(site, obj=None, extra=None):
     for h in _G.hooks:
         h(site, obj, rec, n)
     pat = _G.fault.get(site)
-    if pat is not None and (pat == "every" or n == pat):
+    if pat is not None and (pat == "every" or n == pat or (isinstance(pat, (list, tuple)) and n in pat)):
         rec.append("raised")
         raise Boom(site)
 
